@@ -22,7 +22,7 @@ RULE = ('seeded small worlds (1-4 segments, <=3 channels, contiguous / interleav
         'lazily (+ seeded lazy windows; every 16th cut also through a real file) and compared with the prefix '
         'oracle. evaluations = worlds, sub_evaluations = crash points. distinct = segment shape sequence; '
         'non-trivial = some cut fell strictly inside raw data that holds values')
-EXPECTED_PROBES = ['cut:lead-in', 'cut:metadata', 'cut:chunk-boundary', 'cut:mid-row-interleaved', 'cut:mid-value',
+EXPECTED_PROBES = ['cut-via:rawfile', 'cut:lead-in', 'cut:metadata', 'cut:chunk-boundary', 'cut:mid-row-interleaved', 'cut:mid-value',
                    'cut:string-offsets', 'cut:string-bytes', 'marker:contiguous', 'marker:interleaved', 'daqmx-world', 'writer-made-file']
 ASSUMPTIONS = ['crash model = prefix truncation at a byte offset (what the statement names); holes and reordered '
                'writes are not modelled']
@@ -108,11 +108,12 @@ def expected_incomplete(w, c):
     return w.cut_inside_raw(c)
 
 
-def check_cut(w, c, raw_ts, st, res, win_rng, real=False):
+def check_cut(w, c, raw_ts, st, res, win_rng, real=False, backend=None):
     out = []
     name = 'w.tdms'
-    st.put(name, w.data[:c], real=real)
-    backend = 'realpath' if real else 'simstream'
+    if backend is None:
+        backend = 'realpath' if real else 'simstream'
+    st.put(name, w.data[:c], real=backend in ('realpath', 'realfile', 'rawfile'))
     try:
         eager = lib.TdmsFile.read(st.source(backend, name), raw_timestamps=raw_ts)
     except Exception as exc:
@@ -337,6 +338,12 @@ def execute(case):
             if case['cuts'] is None and c % 16 == 5:
                 vs += check_cut(w, c, raw_ts, st, res, win_rng, real=True)
                 res.probe('realfs-cut')
+            elif (c * 2654435761 + case['win_seed']) % 7 == 0:
+                # the same cut file handed over as another kind of object: BytesIO, a buffered and an unbuffered real file
+                bk = ('bytesio', 'realfile', 'rawfile')[(c + case['win_seed']) % 3]
+                vs += check_cut(w, c, raw_ts, st, res, win_rng, backend=bk)
+                st.close_real()
+                res.probe('cut-via:' + bk)
             st.fs.faults_fired['crash'] = st.fs.faults_fired.get('crash', 0) + 1
             res.sub_evals += 1
             res.steps += 1
